@@ -19,7 +19,8 @@ class ConstraintSoftModel(ConstraintModel):
 
     def build(self, btor, soft=False):
         if soft:
-            return self.expr.build(btor)
+            # As for hard constraints, a multi-bit expression holds when non-zero
+            return ExprModel.toBool(btor, self.expr.build(btor))
         else:
             return None
 
